@@ -34,6 +34,8 @@ type SpecEnv struct {
 	tparams      map[*types.TypeParam]types.Type
 	logicalBound []*Term
 	capPre       map[string]*State // state in front of each captured call, keyed by "<name>_called"
+	cfn          *ssa.Function     // callee closure whose clause is evaluated at a call site ...
+	cbind        []Val             // ... and the cells of its free variables
 }
 
 type parsedClause struct {
@@ -430,6 +432,14 @@ func (e *SpecEnv) ident(n *ast.Ident) Val {
 				return v
 			}
 		}
+		if e.cfn != nil {
+			// free variable of a closure whose contract is evaluated at its call site
+			for k, fv := range e.cfn.FreeVars {
+				if fv.Name() == o.Name() && fv.Pos() == o.Pos() && k < len(e.cbind) {
+					return e.ex.load(nil, e.state(), e.cbind[k], elemOfPtr(fv.Type()))
+				}
+			}
+		}
 		e.fail("variable %s is not accessible here", o.Name())
 	}
 	e.fail("identifier %s (%T) not supported", n.Name, obj)
@@ -665,7 +675,8 @@ func (e *SpecEnv) builtin(name string, n *ast.CallExpr) Val {
 		case *types.Basic:
 			return SLen(v.(*Term))
 		case *types.Map:
-			return e.state().heap.mapLen(v.(*Term))
+			// a nil map is empty
+			return Ite(Eq(v.(*Term), Null()), IntT(0), e.state().heap.mapLen(v.(*Term)))
 		case *types.Array:
 			return IntT(t.Underlying().(*types.Array).Len())
 		}
